@@ -6,11 +6,15 @@ from pedal.types.new_types import (AnyType, ImpossibleType,
                                    DictType, SetType, GeneratorType,
                                    FunctionType,
                                    InstanceType, ClassType, LiteralValue,
-                                   IntType, FloatType)
+                                   IntType, FloatType, LiteralInt)
 
 
 def add_tuples(left, right):
     """ Literally just concatenate the types """
+    if not left.element_types or not right.element_types:
+        # No element types also stands for a tuple of unknown shape (e.g., a
+        # repetition by an unknown count): so is anything built from it
+        return TupleType([])
     return TupleType(tuple(left.element_types) + tuple(right.element_types))
 
 
@@ -54,6 +58,24 @@ def keep_left(left, right):
 def keep_right(left, right):
     """ Returns the right parameter """
     return right
+
+
+def repeat_tuple(a_tuple, count):
+    """ A tuple repeated ``count`` times has that many times the elements;
+    if the count is not known, then neither is the shape of the result. """
+    if isinstance(count, LiteralInt) and not isinstance(count.value, bool):
+        return TupleType(tuple(a_tuple.element_types) * max(count.value, 0))
+    return TupleType([])
+
+
+def repeat_left(left, right):
+    """ Returns the left parameter (a tuple) repeated """
+    return repeat_tuple(left, right)
+
+
+def repeat_right(left, right):
+    """ Returns the right parameter (a tuple) repeated """
+    return repeat_tuple(right, left)
 
 
 # Maps the operations to their return types, based on the values.
@@ -104,7 +126,7 @@ VALID_BINOP_TYPES = {
                          FloatType: NumType_any,
                          StrType: StrType_any,
                          ListType: keep_right,
-                         TupleType: keep_right},
+                         TupleType: repeat_right},
                FloatType: {NumType: NumType_any,
                            IntType: FloatType_any,
                            FloatType: FloatType_any},
@@ -113,13 +135,13 @@ VALID_BINOP_TYPES = {
                          FloatType: FloatType_any,
                          StrType: keep_right,
                          ListType: keep_right,
-                         TupleType: keep_right},
+                         TupleType: repeat_right},
                StrType: {NumType: keep_left,
                          IntType: keep_left},
                ListType: {NumType: keep_left,
                           IntType: keep_left},
-               TupleType: {NumType: keep_left,
-                           IntType: keep_left}},
+               TupleType: {NumType: repeat_left,
+                           IntType: repeat_left}},
     ast.Pow: {NumType: {NumType: NumType_any,
                         IntType: NumType_any,
                         FloatType: NumType_any},
